@@ -155,6 +155,43 @@ def run_family(ctx, W, out, nsched, terms):
     return sigma
 
 
+def restart_family(ctx, W, out, start_at, nsched):
+    """the experiment is restarted from stage start_at > 0 (Controller.initialise marks the components of the skipped
+    stages finished); outside the Coq model: judged by the predicates only — every component keeps the first final
+    state it shows, skipped components are never launched, the loop terminates"""
+    base = {'W': W, 'outcome': {str(k): v for k, v in out.items()}, 'start_at': start_at}
+    for j in range(nsched):
+        r2 = random.Random(ctx.rng.random())
+
+        def ch(en, step, r2=r2):
+            return r2.randrange(len(en))
+        trace, errors, complete, drv = SC.explore(W, out, ch, maxlen=1500, start_at=start_at)
+        evs = [t[0] for t in trace]
+        case = dict(base, schedule=evs)
+        ctx.case([W, sorted(out.items()), evs, start_at], len(evs) > 2 * len(W))
+        ctx.count('restart_from_stage_schedules')
+        if errors:
+            ctx.disagree(case, errors[0][-1500:], None, 'C02 driver (restart from a later stage): Controller.run raised an unexpected exception')
+            continue
+        if not complete:
+            ctx.fail(case, 'stage loop did not terminate within 1500 events (restart from stage %d)' % start_at, [])
+            continue
+        first_final = {}
+        for (ev, pre, post) in trace:
+            for c in range(len(W)):
+                st = post['comps'][c][0]
+                if st in FINALS:
+                    if c in first_final and first_final[c] != st:
+                        ctx.fail(dict(case, component=c), 'a component changed from one final state (%s) to another (%s) '
+                                 'after a restart from stage %d' % (first_final[c], st, start_at), [])
+                    first_final.setdefault(c, st)
+                if W[c]['stage'] < start_at and post['comps'][c][2] > 0:
+                    ctx.fail(dict(case, component=c), 'a component of a skipped stage was launched', [])
+        for (c, p, what, ev) in SC.launch_violations(W, trace):
+            if W[p]['stage'] >= start_at:
+                ctx.fail(dict(case, component=c, producer=p, at=ev), what, [])
+
+
 def run(ctx):
     rng = ctx.rng
     ctx.rule = ('families = (random DAG 1-7 components / 1-3 stages with replicas, aggregators, observers) x outcome table '
@@ -167,6 +204,20 @@ def run(ctx):
     # corpus: F2 witness (observer of a subject that is shut down)
     W = [SC.comp(sd=['KnownIssue']), SC.comp(preds=[0], rep=True)]
     run_family(ctx, W, {0: ['KnownIssue'], 1: ['Success']}, nsched, terms)
+    # more than five consecutive refused submissions (the sixth re-submission must be refused), and exactly five
+    for nsf in (5, 6):
+        Wsf = [SC.comp(mx=3), SC.comp(preds=[0])]
+        run_family(ctx, Wsf, {0: ['SubmissionFailed'] * nsf + ['Success'], 1: ['Success']}, max(4, nsched // 3), terms)
+    # restart from a later stage
+    nres = 12 if ctx.tier == 'quick' else 150
+    for i in range(nres):
+        W = SC.gen_workflow(rng)
+        nst = max(d['stage'] for d in W) + 1
+        if nst < 2:
+            continue
+        restart_family(ctx, W, SC.gen_outcome(rng, W), rng.randint(1, nst - 1), 3)
+    Wr = [SC.comp(), SC.comp(stage=1, sd=['KnownIssue']), SC.comp(stage=1), SC.comp(stage=2, preds=[1, 2])]
+    restart_family(ctx, Wr, {0: ['Success'], 1: ['KnownIssue'], 2: ['Success'], 3: ['Success']}, 1, 6)
     for i in range(nfam):
         W = SC.gen_workflow(rng)
         benign = rng.random() < 0.6
